@@ -412,3 +412,13 @@ Proof.
     unfold tb_index, tb_set. rewrite Hn0, He. split; [reflexivity | intros y; reflexivity].
 Qed.
 Print Assumptions C10_total_map_proof.
+
+Lemma C10_keys_are_iter_proof : stmt_C10_keys_are_iter.
+Proof.
+  unfold stmt_C10_keys_are_iter. intros it c ic n Hg Hi Hc.
+  destruct (C10_slots_proof it c Hg) as (Hs & _).
+  destruct (C04_table_proof it ic Hi) as (Ht & _).
+  split; [rewrite Hs, Ht; reflexivity|].
+  rewrite <- (map_length fst), Hs, map_length. symmetry. exact (gen_count_spec it n Hc).
+Qed.
+Print Assumptions C10_keys_are_iter_proof.
